@@ -120,7 +120,10 @@ type Entry struct {
 	// deviationPresence tracks whether certain attributes for a DeviateEntry-type
 	// Entry have been given deviation values.
 	deviatePresence deviationPresence
-	Uses            []*UsesStmt `json:",omitempty"` // Uses merged into this entry.
+	// deviateOrder lists the entries of Deviate in the order in which the
+	// deviate statements were written.
+	deviateOrder []orderedDeviate
+	Uses         []*UsesStmt `json:",omitempty"` // Uses merged into this entry.
 
 	// Extra maps all the unsupported fields to their values
 	Extra map[string][]interface{} `json:"extra-unstable,omitempty"`
@@ -136,6 +139,12 @@ type Entry struct {
 	// the augmenting entity per RFC6020 Section 7.15.2. The namespace
 	// of the Entry should be accessed using the Namespace function.
 	namespace *Value
+}
+
+// An orderedDeviate is one deviate statement of a deviation.
+type orderedDeviate struct {
+	kind  deviationType
+	entry *Entry
 }
 
 // An RPCEntry contains information related to an RPC Node.
@@ -957,6 +966,7 @@ func ToEntry(n Node) (e *Entry) {
 					}
 
 					e.Deviate[dt] = append(e.Deviate[dt], de)
+					e.deviateOrder = append(e.deviateOrder, orderedDeviate{dt, de})
 				}
 			}
 		case "mandatory":
@@ -1146,8 +1156,11 @@ func (e *Entry) ApplyDeviate(deviateOpts ...DeviateOpt) []error {
 			continue
 		}
 
-		for dt, dv := range d.Deviate {
-			for _, devSpec := range dv {
+		// The deviate statements take effect in the order in which they
+		// are written, not in the order of the Deviate map.
+		for _, od := range d.deviateOrder {
+			dt := od.kind
+			for _, devSpec := range []*Entry{od.entry} {
 				switch dt {
 				case DeviationAdd, DeviationReplace:
 					if devSpec.Config != TSUnset {
